@@ -1,5 +1,221 @@
-(* C14 — placeholder while the correspondence is being brought up; replaced by the property theorems. *)
-From Coq Require Import List.
-Theorem C14_placeholder : True.
-Proof. exact I. Qed.
-Print Assumptions C14_placeholder.
+(* C14 — Server description and control interoperate with the library's own client.  Property theorems only.
+
+   Vocabulary.  sdev = a server definition (tree of devices; services with state variables as made by
+   create_state_var / create_event_var: data type of the generated table, default, range with step, allowed
+   list, evented; actions declared with callable_action: in- and out-arguments bound to variables).
+   init_device = UpnpServerDevice.__init__ ; describe = the client's UpnpFactory (C05.Model) run on the
+   trees UpnpXmlSerializer writes (Model.ser_root / ser_scpd), GETs answered by the server's to_xml;
+   call_through = the client's UpnpAction.async_call (C06.Model: request text; C06.XmlRead in the place of the
+   server's XML parser; Model.handle = _parse_action_body + action_handler + the two response builders;
+   C07.Model: response decoding); handle = one POST to a control URL.  def_of = the definition in C05's
+   vocabulary; mirror_dev = C05's "the object graph mirrors the definition one-to-one".
+   Oracles are universally quantified: float repr / float(), non-ASCII lower(), urljoin, and the iteration
+   order of a Python set (any function returning the same elements).  wf_sdev / wf_ssvc (Spec.v) are the
+   readings under which a definition counts as one the statement speaks about.
+   The model is the REPAIRED server (D9, D10, D34, D35, D36: /verif/proposed/C14). *)
+From Coq Require Import List Bool NArith ZArith.
+From AUC Require Import Prelude.PyStr Prelude.PyDict C08.TypesDef C08.Model C08.Spec Gen.Types Gen.DateMatchers
+  C05.Xml C05.Names C05.Model C05.Def C05.Spec C06.XmlRead
+  C14.Model C14.Spec C14.Base C14.Init C14.Ser C14.SerDev C14.Descr C14.Bad C14.Call C14.Run C14.Link C14.ExampleCase.
+From AUC Require C06.Model C06.Spec C07.Model C07.Spec.
+Import ListNotations.
+Local Open Scope N_scope.
+
+(* Sentence 1.  For every well-formed server definition, every oracle answer and every probe list: the
+   device can be instantiated; the client's factory, run on the device description and the service
+   descriptions the server serves, succeeds; the object graph mirrors the DEFINITION one-to-one (devices,
+   services with resolved URLs, state variables with type / evented flag / minimum / maximum / allowed
+   set / default / validation behaviour on the probes, actions with their arguments bound by name, icons);
+   and every state variable holds the <step> text of its definition. *)
+Theorem C14_description_roundtrip :
+  forall (float_str : fl -> pystr) (float_of_str : pystr -> option fl) (lower_ext : N -> N)
+         (set_iter : list pyval -> list pyval) (urljoin : pystr -> pystr -> pystr),
+    (forall l x, In x (set_iter l) <-> In x l) ->
+  forall (probes : list pyval) (base : pystr) (d : sdev),
+    wf_sdev float_str float_of_str lower_ext urljoin base d = true ->
+    exists (o : dobj) (c : dev_o),
+      init_device float_of_str lower_ext d = SOk o /\
+      describe float_str float_of_str lower_ext set_iter urljoin probes base o = FOk c /\
+      mirror_dev urljoin float_of_str lower_ext true probes base (def_of d) c = true /\
+      describe_steps float_str float_of_str lower_ext set_iter o = expected_steps d.
+Proof. exact description_roundtrip. Qed.
+Print Assumptions C14_description_roundtrip.
+
+(* ... where the instantiated device holds, index by index, the service objects of the definition's
+   services (each well formed w.r.t. the url of its device): the theorems below speak about them. *)
+Theorem C14_services_instantiated :
+  forall (float_str : fl -> pystr) (float_of_str : pystr -> option fl) (lower_ext : N -> N)
+         (urljoin : pystr -> pystr -> pystr) (base : pystr) (d : sdev),
+    wf_sdev float_str float_of_str lower_ext urljoin base d = true ->
+    exists o, init_device float_of_str lower_ext d = SOk o /\
+      forall k url s, nth_error (all_ssvcs d) k = Some (url, s) ->
+        wf_ssvc float_str float_of_str lower_ext urljoin url s = true /\
+        nth_error (all_svcobjs o) k = Some (url, sobj_of float_of_str lower_ext s).
+Proof. exact services_instantiated. Qed.
+Print Assumptions C14_services_instantiated.
+
+(* Sentence 2.  For every well-formed service, every action of it, every keyword assignment (a dict) that
+   gives each in-argument a value its declaration accepts (values of the C08/C06 domain: any int - or a
+   bool for an integer type -, bool, non-nan float that this float printer/parser pair maps back, string of
+   XML-legal characters incl. markup and CR, date, whole-second time with whole-minute offset) and every
+   handler method returning typed results for (any subset of) its out-arguments: the call through the
+   client model reaches the handler - which sees exactly the in-arguments, each equal (Python ==) to the
+   caller's value -, the server answers 200, and the caller gets back exactly the handler's results. *)
+Theorem C14_call_roundtrip :
+  forall (float_str : fl -> pystr) (float_of_str : pystr -> option fl) (lower_ext : N -> N)
+         (set_iter : list pyval -> list pyval) (urljoin : pystr -> pystr -> pystr),
+    (forall l x, In x (set_iter l) <-> In x l) ->
+  forall (base dev_url : pystr) (s : ssvc) (a : sact) (kw : list (pystr * pyval)) (outs : list (pystr * pyval)),
+    wf_ssvc float_str float_of_str lower_ext urljoin dev_url s = true -> In a (sc_acts s) ->
+    nodupb (map fst kw) = true ->
+    args_valid float_of_str lower_ext s a kw = true ->
+    args_in_domain float_str float_of_str lower_ext s a kw = true ->
+    outs_valid float_str float_of_str lower_ext s a outs = true ->
+    exists seen l got,
+      call_through float_str float_of_str lower_ext set_iter urljoin base
+                   (dev_url, sobj_of float_of_str lower_ext s) (ac_name a) kw (HReturn outs)
+        = CDone (Some seen) (ROk l) (C07.Model.Returned got) /\
+      kwargs_reach a kw seen = true /\ results_return outs got = true.
+Proof. exact call_roundtrip. Qed.
+Print Assumptions C14_call_roundtrip.
+
+(* Sentence 3.  Under the same premises on the call: an UpnpActionError raised by the handler with error
+   code c reaches the caller as an action error (UpnpActionResponseError, status 500) with the same code c
+   (501 = ACTION_FAILED when the handler gave none). *)
+Theorem C14_fault_roundtrip :
+  forall (float_str : fl -> pystr) (float_of_str : pystr -> option fl) (lower_ext : N -> N)
+         (set_iter : list pyval -> list pyval) (urljoin : pystr -> pystr -> pystr),
+    (forall l x, In x (set_iter l) <-> In x l) ->
+  forall (base dev_url : pystr) (s : ssvc) (a : sact) (kw : list (pystr * pyval)) (code : option Z),
+    wf_ssvc float_str float_of_str lower_ext urljoin dev_url s = true -> In a (sc_acts s) ->
+    nodupb (map fst kw) = true ->
+    args_valid float_of_str lower_ext s a kw = true ->
+    args_in_domain float_str float_of_str lower_ext s a kw = true ->
+    exists seen,
+      call_through float_str float_of_str lower_ext set_iter urljoin base
+                   (dev_url, sobj_of float_of_str lower_ext s) (ac_name a) kw (HActionError code)
+        = CDone (Some seen) (RFault (fault_code_of code))
+                (C07.Model.Raised (C07.Model.EActionResponse (Some (fault_code_of code)) (Some s_Action_Failed) 500%Z)) /\
+      kwargs_reach a kw seen = true.
+Proof. exact fault_roundtrip. Qed.
+Print Assumptions C14_fault_roundtrip.
+
+(* The client model built from the served description validates exactly as the definition says: an
+   assignment the definition does not accept (an in-argument missing, out of range, not allowed, of the
+   wrong type, without the demanded time zone) never leaves the client. *)
+Theorem C14_invalid_call_refused :
+  forall (float_str : fl -> pystr) (float_of_str : pystr -> option fl) (lower_ext : N -> N)
+         (set_iter : list pyval -> list pyval) (urljoin : pystr -> pystr -> pystr),
+    (forall l x, In x (set_iter l) <-> In x l) ->
+  forall (base dev_url : pystr) (s : ssvc) (a : sact) (kw : list (pystr * pyval)),
+    wf_ssvc float_str float_of_str lower_ext urljoin dev_url s = true -> In a (sc_acts s) ->
+    args_valid float_of_str lower_ext s a kw = false ->
+    forall h, exists e,
+      call_through float_str float_of_str lower_ext set_iter urljoin base
+                   (dev_url, sobj_of float_of_str lower_ext s) (ac_name a) kw h = CRefused e /\
+      (e = C06.Model.EUpnpError \/ e = C06.Model.EUpnpValueError).
+Proof. exact invalid_call_refused. Qed.
+Print Assumptions C14_invalid_call_refused.
+
+(* Sentence 4.  For every well-formed service and EVERY request - any SOAPAction header or none, any body:
+   not XML, or any XML tree - with a handler method that behaves (typed results for its own out-arguments,
+   UpnpActionError, UpnpValueError): if the request has a malformed envelope or SOAPAction, names an unknown
+   action, or carries an argument element that is unknown or unparseable, or lacks an in-argument, or gives
+   one a value that is out of range / not allowed / without the demanded time zone (the last occurrence of
+   a repeated argument counting), the answer is a 4xx status or a SOAP fault; otherwise no exception
+   leaves the handler. *)
+Theorem C14_bad_request_handled :
+  forall (float_str : fl -> pystr) (float_of_str : pystr -> option fl) (lower_ext : N -> N)
+         (urljoin : pystr -> pystr -> pystr) (dev_url : pystr) (s : ssvc)
+         (hdr : option pystr) (body : option xtree) (h : hscript),
+    wf_ssvc float_str float_of_str lower_ext urljoin dev_url s = true ->
+    c_bad_request float_str float_of_str lower_ext s hdr body h
+      (snd (handle float_str float_of_str lower_ext (sobj_of float_of_str lower_ext s) hdr body h)) = true.
+Proof. exact bad_request_handled. Qed.
+Print Assumptions C14_bad_request_handled.
+
+(* "never an unhandled server exception": whatever the request. *)
+Theorem C14_never_escapes :
+  forall (float_str : fl -> pystr) (float_of_str : pystr -> option fl) (lower_ext : N -> N)
+         (urljoin : pystr -> pystr -> pystr) (dev_url : pystr) (s : ssvc)
+         (hdr : option pystr) (body : option xtree) (h : hscript),
+    wf_ssvc float_str float_of_str lower_ext urljoin dev_url s = true ->
+    script_ok float_str float_of_str lower_ext s hdr h = true ->
+    not_escaped (snd (handle float_str float_of_str lower_ext (sobj_of float_of_str lower_ext s) hdr body h)) = true.
+Proof. exact never_escapes. Qed.
+Print Assumptions C14_never_escapes.
+
+(* and the refusals are not gratuitous: a request of none of the listed classes reaches the handler method *)
+Theorem C14_valid_request_reaches_handler :
+  forall (float_str : fl -> pystr) (float_of_str : pystr -> option fl) (lower_ext : N -> N)
+         (urljoin : pystr -> pystr -> pystr) (dev_url : pystr) (s : ssvc)
+         (hdr : option pystr) (body : option xtree) (h : hscript),
+    wf_ssvc float_str float_of_str lower_ext urljoin dev_url s = true ->
+    script_ok float_str float_of_str lower_ext s hdr h = true ->
+    must_refuse float_of_str lower_ext s hdr body = false ->
+    exists kw, fst (handle float_str float_of_str lower_ext (sobj_of float_of_str lower_ext s) hdr body h) = Some kw.
+Proof. exact valid_request_reaches_handler. Qed.
+Print Assumptions C14_valid_request_reaches_handler.
+
+(* The four clauses exactly as the correspondence check evaluates them (Run.report: clauses i x ob, inside
+   op_in_domain i x), on the model's own observation, for every input and every operation of it. *)
+Theorem C14_run_clauses :
+  forall (i : input) (k : nat) (x : op) (m : obs1),
+    nth_error (i_ops i) k = Some x -> nth_error (model_run i) k = Some m -> op_in_domain i x = true ->
+    forallb (fun cb : N * bool => snd cb) (clauses i x m) = true.
+Proof. exact run_clauses. Qed.
+Print Assumptions C14_run_clauses.
+
+(* ------------------------------------------------------------------ non-vacuity *)
+(* ExampleCase.ex1: a root device (icon; service with an evented ui2 variable with range 0..100 step 5 and
+   default, a dateTime.tz variable with a default, a string variable with an allowed list given with a
+   repetition, a float variable with default "1.50"; action SetLevel with two in- and three out-arguments,
+   action Ping without arguments) and an embedded device with its own url and one service.  The
+   definition is well formed; all 15 operations (the description; calls with a bool for the ui2 argument
+   and a result string carrying markup, CR, CR LF and an astral character; a handler-raised error 714; a
+   call the client refuses; a call into the embedded device; ten requests: unparseable, missing, out of
+   range, not allowed, unknown (an out-argument's name), duplicate, unknown action, not XML, no
+   SOAPAction, reordered) lie inside the domain; the model's observations are those recorded from the
+   repaired implementation and satisfy every clause (the report is empty). *)
+Example C14_domain_inhabited :
+  def_ok (fst ex1) = true /\
+  length (i_ops (fst ex1)) = 15%nat /\
+  forallb (op_in_domain (fst ex1)) (i_ops (fst ex1)) = true /\
+  report 0 [ex1] = [].
+Proof. vm_compute. repeat split; reflexivity. Qed.
+
+(* what the model says on four of these operations: typed results returned; error 714; the client's
+   refusal; a 400 for the unparseable argument; the duplicate argument reaches the handler with its last value *)
+Example C14_example_observations :
+  match model_run (fst ex1) with
+  | _ :: ObCall (CDone (Some seen1) (ROk _) (C07.Model.Returned got1))
+      :: ObCall (CDone (Some _) (RFault 714%Z) (C07.Model.Raised (C07.Model.EActionResponse (Some 714%Z) _ 500%Z)))
+      :: ObCall (CRefused C06.Model.EUpnpValueError)
+      :: ObCall (CDone (Some []) (ROk _) (C07.Model.Returned [(_, VBool false)]))
+      :: ObRaw None (RBad _) :: ObRaw None (RBad _) :: ObRaw None (RFault 402%Z) :: ObRaw None (RFault 402%Z)
+      :: ObRaw None (RBad _) :: ObRaw (Some seen2) (ROk _) :: ObRaw None (RBad _) :: ObRaw None (RBad _)
+      :: ObRaw None (RBad _) :: ObRaw (Some _) (ROk _) :: [] =>
+      dget str_eqb seen1 [78;101;119;76;101;118;101;108] = Some (VInt 1) /\      (* NewLevel: True arrived as 1 *)
+      length got1 = 3%nat /\
+      dget str_eqb seen2 [78;101;119;76;101;118;101;108] = Some (VInt 7)         (* NewLevel twice: the last counts *)
+  | _ => False
+  end.
+Proof. vm_compute. repeat split; reflexivity. Qed.
+
+(* the hypotheses of sentence 2 hold of the first call of the example *)
+Example C14_call_premises_inhabited :
+  match all_ssvcs (i_def (fst ex1)), nth_error (i_ops (fst ex1)) 1 with
+  | (url, s) :: _, Some (OpCall _ name kw (HReturn outs)) =>
+      match act_named s name with
+      | Some a =>
+          wf_ssvc (fstr_of (fst ex1)) (fparse_of (fst ex1)) lext (urljoin_of (fst ex1)) url s = true /\
+          nodupb (map fst kw) = true /\
+          args_valid (fparse_of (fst ex1)) lext s a kw = true /\
+          args_in_domain (fstr_of (fst ex1)) (fparse_of (fst ex1)) lext s a kw = true /\
+          outs_valid (fstr_of (fst ex1)) (fparse_of (fst ex1)) lext s a outs = true /\
+          length kw = 2%nat /\ length outs = 3%nat
+      | None => False
+      end
+  | _, _ => False
+  end.
+Proof. vm_compute. repeat split; reflexivity. Qed.
